@@ -1186,6 +1186,8 @@ theorem step_enableEom_erase {s : SeqState} {n : ChName} {e : EomIn}
           | error er => simp [hp, fail] at h
           | ok detOff =>
             simp only [hp, processEomParams_erase hp] at h ⊢
+            unfold enableEomCommit at h ⊢
+            simp only at h ⊢
             obtain ⟨a1, a2, a3⟩ := rbind_ok h
             rw [a3]
             have e1 := withChan_erase (sim_enableEom s.dev.maxSeqDur e.amp e.detOn detOff false false) a1
@@ -1279,6 +1281,8 @@ theorem step_modifyEom_erase {s : SeqState} {n : ChName} {e : EomIn}
         | error er => simp [hp, fail] at h
         | ok detOff =>
           simp only [hp, processEomParams_erase hp] at h ⊢
+          unfold modifyEomCommit at h ⊢
+          simp only at h ⊢
           obtain ⟨a1, a2, a3⟩ := rbind_ok h
           rw [a3]
           have e1' : (erase s).withChan n (fun c => disableEom (erase s).dev.maxSeqDur c true)
